@@ -349,7 +349,7 @@ def g_ws(rng):
 
 OPS = {"~=": "INCLUDES", "|=": "DASHMATCH", "^=": "PREFIXMATCH", "$=": "SUFFIXMATCH", "*=": "SUBSTRINGMATCH",
        "<!--": "CDO", "-->": "CDC"}
-DELIMS = ",:;{}>[]" + "()!=&%?`*~|^$/.+-<@#" + "\x01\x7f"
+DELIMS = ",:;{}>[]" + "()!=&%?`*~|^$/.+-<@#" + "\x01\x7f" + "\\"
 
 
 def g_op(rng):
@@ -438,6 +438,8 @@ def ok_follow(lx, tail):
             return h != "!"
         if c in "@#":
             return not nmstartish(h)
+        if c == "\\":
+            return h == "" or h in "\n\r\f"       # a lone backslash: no escape can start
         return True
     return True     # function, percentage, string, comment, uri, op
 
@@ -1041,11 +1043,13 @@ TRUSTED = [
 ASSUME = [
     "Print Assumptions for every theorem of props/C09.v: see coverage.print_assumptions (all closed)",
     "theorems are stated for fullsheet=False (the observation point of the property) and doComments=True",
-    "proved for all lexemes: IDENT and FUNCTION (and( exception as coded; except no-dash names beginning ur / u\\ / u+ or "
-    "with an escape), HASH, ATKEYWORD (+ every respelling of the six symbols, via C10's RespellFacts), NUMBER, PERCENTAGE, "
-    "DIMENSION, STRING, COMMENT, S, match operators, CDO, CDC, fast-path / context-free / context-dependent delimiters; "
-    "RATIO characterised exactly on integer-initial texts; lexeme_sequence over all adjacent sequences of these",
-    "finite vm_compute sweeps only: URI, UNICODE-RANGE, ur-/escape-initial identifiers, the lone backslash",
+    "proved for all lexemes: IDENT and FUNCTION (and( exception as coded; names beginning with u/U/an escape under the exact "
+    "condition kw_free, discharged for every identifier not followed by '(' or '+'), URI (every spelling of url( the letter "
+    "macros accept, quoted or bare body), UNICODE-RANGE, HASH, ATKEYWORD (+ every respelling of the six symbols, via C10's "
+    "RespellFacts), NUMBER, PERCENTAGE, DIMENSION, STRING, COMMENT, S, match operators, CDO, CDC, fast-path / context-free / "
+    "context-dependent delimiters incl. the lone backslash; RATIO characterised exactly on integer-initial texts; the letter "
+    "macros U R L characterised exactly (letter_macro_spec); lexeme_sequence over all adjacent sequences of these",
+    "finite vm_compute sweeps remain as regression examples only",
     "hex_escape_resolved is partial: an escaped backslash directly followed by a hex digit is excluded (refuted, open finding)",
     "COMMENT values are escape-resolved by design (COMMENT is in the tokenizer's resolved list); the oracle expects that",
 ]
